@@ -57,6 +57,14 @@ where
     let pi = params.into_iter();
     let ci = columns.into_iter();
 
+    // the reply carries both counts in 16 bits; don't announce different ones
+    if pi.len() > usize::from(u16::MAX) || ci.len() > usize::from(u16::MAX) {
+        return Err(io::Error::new(
+            io::ErrorKind::InvalidInput,
+            "a prepared statement cannot have more than 65535 parameters or columns",
+        ));
+    }
+
     // first, write out COM_STMT_PREPARE_OK
     w.write_u8(0x00)?;
     w.write_u32::<LittleEndian>(id)?;
